@@ -345,7 +345,7 @@ let () =
              (* the extracted matcher backtracks like the real one but on unary/binary-coded integers:
                 no model voice for patterns with many quantifiers (exponential search) *)
              let quants = List.length (List.filter (fun c -> let c = int_of_z c in c = 63 || c = 42 || c = 43 || c = 45) (s 1)) in
-             if quants > 10 || List.length (s 1) > 64 || List.length (s 0) > 64 then "?"
+             if quants > 10 || List.length (s 1) > 200 || List.length (s 0) > 64 then "?"
              else (try pattern_op op s n with PTrap r -> "!trap:" ^ r | PUnsafe -> "!unsafe" | PFuel -> "!fuel")
                   ^ (if op = "gmatch" then "" else " || " ^ lua_pattern_spec op s n)
            | "abs" -> dec_of_z (nl_abs (n 0)) ^ " || " ^ dec_of_z (lua_abs (n 0))
